@@ -160,9 +160,13 @@ fn line_presence(spec: &CmdSpec, argv: &[Vec<u8>]) -> Option<(Obs, bool)> {
             has_sub = true;
             break; // the rest belongs to the subcommand
         }
-        let (id, val) = match s.strip_prefix("--")?.split_once('=') {
-            Some((k, v)) => (k.to_string(), Some(v.as_bytes().to_vec())),
-            None => (s.strip_prefix("--")?.to_string(), None),
+        let (id, val) = if s == "-b" {
+            ("b".to_string(), None)
+        } else {
+            match s.strip_prefix("--")?.split_once('=') {
+                Some((k, v)) => (k.to_string(), Some(v.as_bytes().to_vec())),
+                None => (s.strip_prefix("--")?.to_string(), None),
+            }
         };
         let a = spec.arg(&id)?;
         // overrides in both directions
@@ -177,6 +181,8 @@ fn line_presence(spec: &CmdSpec, argv: &[Vec<u8>]) -> Option<(Obs, bool)> {
         if let Some(e) = present.iter_mut().find(|(p, _)| p == &id) {
             if a.act() == Act::Append {
                 e.1.extend(val);
+            } else if a.act() == Act::Count {
+                // a counter may repeat
             } else {
                 return None; // repeat of a Set/flag argument: grammar-level, part 1's business
             }
@@ -194,7 +200,7 @@ fn line_presence(spec: &CmdSpec, argv: &[Vec<u8>]) -> Option<(Obs, bool)> {
         } else if a.env.is_some() {
             o.present = true;
             o.source = Some(Src::Env);
-            o.occ = vec![vec![if a.id == "o" { b"x".to_vec() } else { b"true".to_vec() }]];
+            o.occ = vec![vec![if a.id == "o" { b"x".to_vec() } else if a.act() == Act::Count { b"3".to_vec() } else { b"true".to_vec() }]];
         }
         ob.args.insert(a.id.clone(), o);
     }
